@@ -42,7 +42,130 @@ func c14Teardown(e *c14env) {
 	}
 	unsubObj := e.role("unsubscribe").obj
 	allSubsObj := e.role("allSubscribes").obj
+	// the session's filters: allSubscribes, or a Session method handing its first result on
+	// (subscribedTopics() []string)
+	ownSrc := map[*types.Func]bool{allSubsObj: true}
+	e.decls(func(g *flow.Func, gd *ast.FuncDecl) {
+		o := e.funcObj(gd)
+		rn := e.recvNamed(gd)
+		if o == nil || rn == nil || rn.Obj().Name() != "Session" || o == allSubsObj {
+			return
+		}
+		sig := o.Type().(*types.Signature)
+		if sig.Params().Len() != 0 || sig.Results().Len() < 1 || !c14isSliceOf(sig.Results().At(0).Type(), c14isStr) {
+			return
+		}
+		var v types.Object
+		ast.Inspect(gd.Body, func(n ast.Node) bool {
+			if as, ok := n.(*ast.AssignStmt); ok && len(as.Rhs) == 1 {
+				if call, ok := ast.Unparen(as.Rhs[0]).(*ast.CallExpr); ok && c14calleeOf(g, call) == allSubsObj {
+					v = c14obj(g, as.Lhs[0])
+				}
+			}
+			return true
+		})
+		okAll, rets := v != nil, 0
+		ast.Inspect(gd.Body, func(n ast.Node) bool {
+			if r, ok := n.(*ast.ReturnStmt); ok {
+				rets++
+				if len(r.Results) < 1 || c14obj(g, r.Results[0]) != v {
+					okAll = false
+				}
+			}
+			return true
+		})
+		if okAll && rets > 0 {
+			ownSrc[o] = true
+		}
+	})
 	teardowns := map[*types.Func]bool{}
+	isAccessor := func(g *flow.Func, call *ast.CallExpr) bool {
+		fo := c14calleeOf(g, call)
+		if fo == nil || fo.Pkg() != e.pkg.Types {
+			return false
+		}
+		sig := fo.Type().(*types.Signature)
+		if sig.Results().Len() != 2 || !c14isNamed(sig.Results().At(0).Type(), mq, "Client") {
+			return false
+		}
+		hd := declOf(e.pkg, fo)
+		if hd == nil {
+			return false
+		}
+		h := funcOf(e.pkg, hd)
+		nIdx, nOther := 0, 0
+		ast.Inspect(hd.Body, func(n ast.Node) bool {
+			switch t := n.(type) {
+			case *ast.IndexExpr:
+				if _, ok := c14fieldRecv(h, t.X, clientsMapF); ok {
+					nIdx++
+				}
+			case *ast.CallExpr:
+				nOther++
+			}
+			return true
+		})
+		return nIdx == 1 && nOther == 0
+	}
+
+	// own reading of the supersession mark (fallback when C16's role code does not find it): a bool
+	// field of Client that is only ever set to true on a connection obtained from the registry (index
+	// lookup or accessor) — the takeover branch marking the connection it replaces
+	markFields := map[*types.Var]bool{}
+	notMark := map[*types.Var]bool{}
+	e.decls(func(g *flow.Func, gd *ast.FuncDecl) {
+		fromRegistry := map[types.Object]bool{}
+		ast.Inspect(gd.Body, func(n ast.Node) bool {
+			if as, ok := n.(*ast.AssignStmt); ok && len(as.Rhs) == 1 && len(as.Lhs) == 2 {
+				isLookup := false
+				if ix, ok := ast.Unparen(as.Rhs[0]).(*ast.IndexExpr); ok {
+					_, isLookup = c14fieldRecv(g, ix.X, clientsMapF)
+				}
+				if call, ok := ast.Unparen(as.Rhs[0]).(*ast.CallExpr); ok && isAccessor(g, call) {
+					isLookup = true
+				}
+				if isLookup {
+					if o := c14obj(g, as.Lhs[0]); o != nil {
+						fromRegistry[o] = true
+					}
+				}
+			}
+			return true
+		})
+		ast.Inspect(gd.Body, func(n ast.Node) bool {
+			as, ok := n.(*ast.AssignStmt)
+			if !ok || len(as.Lhs) != len(as.Rhs) {
+				return true
+			}
+			for i, l := range as.Lhs {
+				sel, ok := ast.Unparen(l).(*ast.SelectorExpr)
+				if !ok {
+					continue
+				}
+				sl := g.Info.Selections[sel]
+				if sl == nil || sl.Kind() != types.FieldVal || !c14isNamed(sl.Recv(), mq, "Client") {
+					continue
+				}
+				fld, _ := sl.Obj().(*types.Var)
+				if fld == nil {
+					continue
+				}
+				if b, isB := fld.Type().Underlying().(*types.Basic); !isB || b.Info()&types.IsBoolean == 0 {
+					continue
+				}
+				tv := g.Info.Types[as.Rhs[i]]
+				if tv.Value != nil && tv.Value.ExactString() == "true" && fromRegistry[c14obj(g, sel.X)] {
+					markFields[fld] = true
+				} else if tv.Value == nil || tv.Value.ExactString() == "true" {
+					notMark[fld] = true
+				}
+			}
+			return true
+		})
+	})
+	for fld := range notMark {
+		delete(markFields, fld)
+	}
 	e16 := c16NewEnv(c)
 
 	e.decls(func(f *flow.Func, fd *ast.FuncDecl) {
@@ -59,7 +182,7 @@ func c14Teardown(e *c14env) {
 				return true
 			}
 			call, ok := ast.Unparen(as.Rhs[0]).(*ast.CallExpr)
-			if !ok || c14calleeOf(f, call) != allSubsObj {
+			if !ok || !ownSrc[c14calleeOf(f, call)] {
 				return true
 			}
 			sel, ok := ast.Unparen(call.Fun).(*ast.SelectorExpr)
@@ -124,8 +247,16 @@ func c14Teardown(e *c14env) {
 			}
 			ast.Inspect(g.Body, func(n ast.Node) bool {
 				if as, ok := n.(*ast.AssignStmt); ok && len(as.Rhs) == 1 && len(as.Lhs) == 2 {
+					isLookup := false
 					if ix, ok := ast.Unparen(as.Rhs[0]).(*ast.IndexExpr); ok {
-						if _, isClients := c14fieldRecv(g, ix.X, clientsMapF); isClients {
+						_, isLookup = c14fieldRecv(g, ix.X, clientsMapF)
+					}
+					// an accessor in front of the registry: lookupClientLocked(id) (*Client, bool)
+					if call, ok := ast.Unparen(as.Rhs[0]).(*ast.CallExpr); ok && isAccessor(g, call) {
+						isLookup = true
+					}
+					if isLookup {
+						{
 							v, _ := as.Lhs[0].(*ast.Ident)
 							k, _ := as.Lhs[1].(*ast.Ident)
 							if v != nil && k != nil && v.Name != "_" && k.Name != "_" {
@@ -212,6 +343,26 @@ func c14Teardown(e *c14env) {
 				})...)
 			}
 		}
+		// reads of the mark on the receiver, in f and its helpers
+		var markKeys []string
+		for _, g := range reach(f, 3) {
+			g := g
+			gd, _ := g.Node.(*ast.FuncDecl)
+			if gd == nil {
+				continue
+			}
+			grecv := c14recvObj(g, gd)
+			ast.Inspect(g.Body, func(n ast.Node) bool {
+				if sel, ok := n.(*ast.SelectorExpr); ok {
+					if sl := g.Info.Selections[sel]; sl != nil && sl.Kind() == types.FieldVal {
+						if fld, _ := sl.Obj().(*types.Var); fld != nil && markFields[fld] && grecv != nil && c14obj(g, sel.X) == grecv {
+							markKeys = append(markKeys, g.VarKey(sel))
+						}
+					}
+				}
+				return true
+			})
+		}
 		lost := func(st *flow.State) bool {
 			for _, l := range lookups {
 				if st.Is(l.g.VarKey(l.ok), flow.True) && st.Is(l.g.EqKey(l.val, l.recv), flow.False) {
@@ -221,6 +372,11 @@ func c14Teardown(e *c14env) {
 			for _, sf := range sup {
 				if st.Is(sf.key, sf.supWhen) {
 					return true // the connection is known to have been taken over
+				}
+			}
+			for _, k := range markKeys {
+				if st.Is(k, flow.True) {
+					return true // the receiver carries the mark the takeover sets on the connection it replaces
 				}
 			}
 			return sessExpr != nil && st.Is(f.NilKey(sessExpr), flow.True)
